@@ -1337,6 +1337,154 @@ func allowCases(st *Stats) []string {
 	return items
 }
 
+// ---------------------------------------------------------------- the path layer
+
+var pathSegs = []string{"", ".", "..", "a", "b.js", "Sub", "index.js", "index", "...js", "..js", ".hidden", "x.y.z", "_.._", "src", "out", "c.d", "e"}
+
+func randPath(r *Rng, abs bool, maxSegs int) string {
+	n := r.Range(0, maxSegs)
+	var parts []string
+	for i := 0; i < n; i++ {
+		parts = append(parts, pathSegs[r.Intn(len(pathSegs))])
+	}
+	p := strings.Join(parts, "/")
+	if abs {
+		p = "/" + p
+	}
+	if r.Chance(10) {
+		p += "/"
+	}
+	return p
+}
+
+var templatePieces = []string{"[dir]", "[name]", "[hash]", "[ext]", "-", "/", "..", "x[", "[", "a", "\\", ".", "sub/", "[nam", "]"}
+
+func randTemplate(r *Rng) string {
+	if r.Chance(5) {
+		return ""
+	}
+	n := r.Range(1, 5)
+	var sb strings.Builder
+	for i := 0; i < n; i++ {
+		sb.WriteString(templatePieces[r.Intn(len(templatePieces))])
+	}
+	return sb.String()
+}
+
+func pathCases(r *Rng, n int, st *Stats, cf *CoqFile) {
+	realFS, err := fs.RealFS(fs.RealFSOptions{AbsWorkingDir: "/"})
+	if err != nil {
+		panic(err)
+	}
+	var joins, rels, dbes, prtos, renders []string
+	for i := 0; i < n; i++ {
+		a, b := randPath(r, r.Chance(70), 4), randPath(r, r.Chance(15), 4)
+		joins = append(joins, "("+cpath(a)+","+cpath(b)+","+cpath(realFS.Join(a, b))+")")
+		st.Note("path:join", a+"|"+b, strings.Contains(a+"/"+b, ".."))
+
+		base, target := randPath(r, true, 4), randPath(r, true, 5)
+		if rp, ok := realFS.Rel(base, target); ok {
+			rels = append(rels, "("+cpath(base)+","+cpath(target)+","+cpath(rp)+")")
+			st.Note("path:rel", base+"|"+target, strings.HasPrefix(rp, ".."))
+		}
+		p := randPath(r, r.Bool(), 4)
+		dbes = append(dbes, "("+cpath(p)+","+cpath(realFS.Dir(p))+","+cpath(realFS.Base(p))+","+cpath(realFS.Ext(p))+")")
+		st.Note("path:dir-base-ext", p, p != "")
+
+		outbase := realFS.Join(randPath(r, true, 3))
+		entry := realFS.Join(randPath(r, true, 4), []string{"a.js", "index.js", "...js", "..js", "noext", "x.y.ts", ".hidden"}[r.Intn(7)])
+		if r.Chance(50) {
+			entry = realFS.Join(outbase, randPath(r, false, 2), "e.js")
+		}
+		avoid := r.Chance(30)
+		custom := ""
+		if r.Chance(30) {
+			custom = []string{"x/y", "../../esc", "../up", "z", "/abs/q", "a/../b", "./k"}[r.Intn(7)]
+		}
+		dir, bn := bundler.PathRelativeToOutbase(&graph.InputFile{Source: logger.Source{KeyPath: logger.Path{Text: entry, Namespace: "file"}}},
+			&config.Options{AbsOutputBase: outbase}, realFS, avoid, custom)
+		prtos = append(prtos, fmt.Sprintf("(%s,%s,%s,%s,%s,%s)", cpath(outbase), cpath(entry), CBool(avoid), cpath(custom), cpath(dir), cpath(bn)))
+		st.Note("path:relative-to-outbase", outbase+"|"+entry+"|"+custom+fmt.Sprint(avoid), strings.Contains(dir, "_.._") || custom != "")
+		// what the rewrite is for: the directory part never contains a parent-directory segment
+		for _, seg := range strings.Split(dir, "/") {
+			if seg == ".." {
+				st.Fail("relative-dir-has-dotdot", map[string]interface{}{"scenario": "none", "outbase": outbase, "entry": entry, "custom": custom}, dir, "no .. segment")
+			}
+		}
+
+		t := randTemplate(r)
+		d, nm, h, e := []string{"/", "/sub", "/_.._/x", "/a/b"}[r.Intn(4)], []string{"a", "index", "..", ".", "x.y"}[r.Intn(5)], []string{"ABCD2345", "", "H"}[r.Intn(3)], []string{"js", "css", "mjs"}[r.Intn(3)]
+		parts := api.VerifValidatePathTemplate(t)
+		s1 := config.SubstituteTemplate(parts, config.PathPlaceholders{Dir: &d, Name: &nm, Ext: &e})
+		s2 := config.SubstituteTemplate(s1, config.PathPlaceholders{Hash: &h})
+		renders = append(renders, fmt.Sprintf("(%s,%s,%s,%s,%s,%s)", cpath(t), cpath(d), cpath(nm), cpath(h), cpath(e), cpath(config.TemplateToString(s2))))
+		st.Note("path:template", t, strings.Contains(t, "["))
+	}
+	cf.AddCases("join_cases", "path * path * path", "check_join", joins)
+	cf.AddCases("rel_cases", "path * path * path", "check_rel", rels)
+	cf.AddCases("dbe_cases", "path * path * path * path", "check_dbe", dbes)
+	cf.AddCases("prto_cases", "path * path * bool * path * path * path", "check_prto", prtos)
+	cf.AddCases("render_cases", "path * path * path * path * path * path", "check_render", renders)
+
+	// end to end through api.Build: where does the output of an entry point land?
+	tmp, err := os.MkdirTemp("", "verif-c17-")
+	if err != nil {
+		panic(err)
+	}
+	defer os.RemoveAll(tmp)
+	root, _ := filepath.EvalSymlinks(tmp)
+	entries := []string{"src/a.js", "src/sub/b.js", "other/c.js", "src/...js", "src/index.js", "src/sub/x.y.ts", "d.js"}
+	for _, e := range entries {
+		os.MkdirAll(filepath.Dir(filepath.Join(root, e)), 0o755)
+		os.WriteFile(filepath.Join(root, e), []byte("console.log(1)\n"), 0o644)
+	}
+	var outs []string
+	e2eTemplates := []string{"[dir]/[name]", "[name]", "x/[name]-y", "[ext]/[name]", "../up/[name]", "[name]/x", "", "[dir]/../[name]", "a\\[name]", "[dir]/[name]x[", "./[name]"}
+	ne := n / 4
+	if ne < 24 {
+		ne = 24
+	}
+	for i := 0; i < ne; i++ {
+		entry := entries[r.Intn(len(entries))]
+		outdir := []string{"out", "src", "out/deep", "."}[r.Intn(4)]
+		outbase := []string{"src", "src/sub", "other", ".", "src/nonexistent/deeper"}[r.Intn(5)]
+		t := e2eTemplates[r.Intn(len(e2eTemplates))]
+		ext := ".js"
+		o := api.BuildOptions{AbsWorkingDir: root, EntryPoints: []string{entry}, Outdir: outdir, Outbase: outbase, EntryNames: t, LogLevel: api.LogLevelSilent, Write: false}
+		if r.Chance(30) {
+			ext = ".mjs"
+			o.OutExtension = map[string]string{".js": ".mjs"}
+		}
+		res := api.Build(o)
+		if len(res.Errors) > 0 || len(res.OutputFiles) != 1 {
+			continue
+		}
+		got := res.OutputFiles[0].Path
+		outs = append(outs, fmt.Sprintf("(%s,%s,%s,%s,[],%s,%s)", cpath(t), cpath(filepath.Join(root, outdir)), cpath(filepath.Join(root, outbase)), cpath(filepath.Join(root, entry)), cpath(ext), cpath(got)))
+		inside := under(filepath.Join(root, outdir), got)
+		st.Note("path:entry-output", fmt.Sprint(entry, outdir, outbase, t, ext), !inside || strings.Contains(got, "_.._"))
+		// the property's predicate: inside outdir unless the template has a parent-directory segment
+		hasDotDot := false
+		for _, seg := range strings.Split(strings.ReplaceAll(t, "\\", "/"), "/") {
+			hasDotDot = hasDotDot || seg == ".."
+		}
+		if !inside && !hasDotDot {
+			in := map[string]interface{}{"scenario": "none", "entry": entry, "outdir": outdir, "outbase": outbase, "entryNames": t}
+			if strings.HasSuffix(entry, "/...js") {
+				// known: the file name "...js" minus its extension is ".." and becomes a path element of its own
+				in["scenario"] = "entry-named-dotdot-escapes-outdir"
+				knownSeen["output-outside-outdir"]++
+				if knownSeen["output-outside-outdir"] <= 2 {
+					st.Fail("output-outside-outdir", in, got, "inside "+filepath.Join(root, outdir))
+				}
+			} else {
+				st.Fail("output-outside-outdir", in, got, "inside "+filepath.Join(root, outdir))
+			}
+		}
+	}
+	cf.AddCases("outpath_cases", "path * path * path * path * path * path * path", "check_outpath", outs)
+}
+
 // ---------------------------------------------------------------- main
 
 func runC17(seed uint64, n int, tier string, outDir string) []*Stats {
@@ -1344,7 +1492,7 @@ func runC17(seed uint64, n int, tier string, outDir string) []*Stats {
 	r := NewRng(seed)
 	st := NewStats("c17", seed)
 	enc := newEncoder()
-	cf := NewCoqFile("From V Require Import Common.Base C17.WriteSM C17.Spec C17.Harness.")
+	cf := NewCoqFile("From V Require Import Common.Base C17.WriteSM C17.Spec C17.PathModel C17.Harness.")
 
 	var comp []string
 	for i := 0; i < n; i++ {
@@ -1352,6 +1500,7 @@ func runC17(seed uint64, n int, tier string, outDir string) []*Stats {
 	}
 	cf.AddCases("compile_cases", "compile_case", "check_compile", comp)
 	cf.AddCases("allow_cases", "bool * bool * bool", "check_allow", allowCases(st))
+	pathCases(r, n, st, cf)
 
 	var hist []string
 	add := func(sc *scenario) {
